@@ -29,6 +29,11 @@ Proof.
   destruct (negb (iv_absolute iv) && iv_invert iv); reflexivity.
 Qed.
 
+(* the exceptions range() takes to mean "the next value is outside the supported range of dates, hence beyond the end":
+   `except (OverflowError, ValueError)`, which covers the subclasses of ValueError too *)
+Definition limit_exn (e : exn) : bool :=
+  match e with E_OverflowError | E_ValueError | E_ParserError | E_NonExistingTime | E_AmbiguousTime => true | _ => false end.
+
 Section Loop.
 Variable iv : interval.
 Variables u n : Z.
@@ -40,7 +45,7 @@ Fixpoint run_from (fuel : nat) (k : nat) (cur : dtv) : gen_out :=
   | S f =>
     if within iv cur then
       gcons cur (match seq_at iv u n (S k) with
-                 | Raise e => ([], GRaise e)
+                 | Raise e => if limit_exn e then ([], GDone) else ([], GRaise e)
                  | Ok nx => run_from f (S k) nx
                  end)
     else ([], GDone)
@@ -54,7 +59,7 @@ Proof.
   destruct (apply_op (range_op iv) cur (iv_end iv)); [|reflexivity].
   f_equal. unfold seq_at.
   replace (Z.of_nat (S k) * n) with ((Z.of_nat k + 1) * n) by lia.
-  destruct (call_method (iv_start iv) (range_meth iv) u ((Z.of_nat k + 1) * n)) as [nx|e]; [|reflexivity].
+  destruct (call_method (iv_start iv) (range_meth iv) u ((Z.of_nat k + 1) * n)) as [nx|e]; [|destruct e; reflexivity].
   replace ((Z.of_nat k + 1) * n + n) with ((Z.of_nat (S k) + 1) * n) by lia.
   apply IH.
 Qed.
@@ -71,7 +76,7 @@ Proof.
   destruct j as [|j].
   - cbn in H. injection H as <-. rewrite Nat.add_0_r. split; assumption.
   - cbn [gcons fst nth_error] in H.
-    destruct (seq_at iv u n (S k)) as [nx|e] eqn:En; [|destruct j; discriminate].
+    destruct (seq_at iv u n (S k)) as [nx|e] eqn:En; [|destruct (limit_exn e); destruct j; discriminate].
     replace (k + S j)%nat with (S k + j)%nat by lia. exact (IH (S k) nx En j x H).
 Qed.
 
@@ -79,8 +84,9 @@ Qed.
 Lemma run_end fuel : forall k cur, seq_at iv u n k = Ok cur ->
   let '(l, st) := run_from fuel k cur in
   match st with
-  | GDone => exists y, seq_at iv u n (k + length l) = Ok y /\ within iv y = false
-  | GRaise e => seq_at iv u n (k + length l) = Raise e /\ (1 <= length l)%nat
+  | GDone => (exists y, seq_at iv u n (k + length l) = Ok y /\ within iv y = false) \/
+             (exists e, seq_at iv u n (k + length l) = Raise e /\ limit_exn e = true /\ (1 <= length l)%nat)
+  | GRaise e => seq_at iv u n (k + length l) = Raise e /\ limit_exn e = false /\ (1 <= length l)%nat
   | GFuel => length l = fuel
   end.
 Proof.
@@ -89,9 +95,13 @@ Proof.
   - destruct (seq_at iv u n (S k)) as [nx|e] eqn:En.
     + specialize (IH (S k) nx En). destruct (run_from f (S k) nx) as [l st]. cbn [gcons fst snd length].
       replace (k + S (length l))%nat with (S k + length l)%nat by lia.
-      destruct st; [exact IH| |lia]. destruct IH as [A B]. split; [exact A|lia].
-    + cbn [gcons fst snd length]. replace (k + 1)%nat with (S k) by lia. split; [exact En|lia].
-  - cbn [length]. rewrite Nat.add_0_r. exists cur. split; assumption.
+      destruct st; [| |lia].
+      * destruct IH as [IH|[e [A [B C]]]]; [left; exact IH|right; exists e; repeat split; [exact A|exact B|lia]].
+      * destruct IH as [A [B C]]. repeat split; [exact A|exact B|lia].
+    + destruct (limit_exn e) eqn:El; cbn [gcons fst snd length]; replace (k + 1)%nat with (S k) by lia.
+      * right. exists e. repeat split; [exact En|exact El|lia].
+      * repeat split; [exact En|exact El|lia].
+  - cbn [length]. rewrite Nat.add_0_r. left. exists cur. split; assumption.
 Qed.
 
 (* every index below the length is yielded *)
@@ -126,7 +136,8 @@ Proof. rewrite py_range_run. intros H. exact (proj2 (run_nth iv u n fuel 0 (iv_s
 Lemma range_prefix_l fuel iv u n l :
   py_range fuel iv u n = (l, GDone) ->
   (forall j, (j < length l)%nat -> exists x, nth_error l j = Some x /\ seq_at iv u n j = Ok x /\ within iv x = true) /\
-  (exists y, seq_at iv u n (length l) = Ok y /\ within iv y = false).
+  ((exists y, seq_at iv u n (length l) = Ok y /\ within iv y = false) \/
+   (exists e, seq_at iv u n (length l) = Raise e /\ limit_exn e = true /\ (1 <= length l)%nat)).
 Proof.
   intros H. split.
   - intros j Hj. pose proof H as H'. rewrite py_range_run in H'.
@@ -139,10 +150,17 @@ Proof.
 Qed.
 
 Lemma range_raise_l fuel iv u n l e :
-  py_range fuel iv u n = (l, GRaise e) -> seq_at iv u n (length l) = Raise e /\ (1 <= length l)%nat.
+  py_range fuel iv u n = (l, GRaise e) -> seq_at iv u n (length l) = Raise e /\ limit_exn e = false /\ (1 <= length l)%nat.
 Proof.
   intros H. rewrite py_range_run in H. pose proof (run_end iv u n fuel 0 (iv_start iv) eq_refl) as E.
   rewrite H in E. exact E.
+Qed.
+
+(* the iteration never ends with OverflowError / ValueError: a next value outside the supported range of dates ends it normally *)
+Lemma range_no_limit_exn_l fuel iv u n e : snd (py_range fuel iv u n) = GRaise e -> limit_exn e = false.
+Proof.
+  intros H. destruct (py_range fuel iv u n) as [l st] eqn:E. cbn [snd] in H. subst st.
+  exact (proj1 (proj2 (range_raise_l _ _ _ _ _ _ E))).
 Qed.
 
 Lemma range_fuel_l fuel iv u n l : py_range fuel iv u n = (l, GFuel) -> length l = fuel.
@@ -210,8 +228,11 @@ Qed.
 Lemma iter_is_range_days fuel iv : py_iter fuel iv = py_range fuel iv U_days 1.
 Proof. reflexivity. Qed.
 
-Lemma contains_spec_l iv x : py_contains iv x = dt_le (iv_start iv) x && dt_le x (iv_end iv).
-Proof. reflexivity. Qed.
+(* `x in interval`: the two ends are taken in ascending order (an inverted, non-absolute interval stores start > end), then lo <= x <= hi
+   with Python's <= on the values *)
+Lemma contains_spec_l iv x : py_contains iv x =
+  if range_down iv then dt_le (iv_end iv) x && dt_le x (iv_start iv) else dt_le (iv_start iv) x && dt_le x (iv_end iv).
+Proof. unfold py_contains, range_down. destruct (negb (iv_absolute iv) && iv_invert iv); reflexivity. Qed.
 
 (* ---------------------------------------------------------------- Interval.__init__ *)
 Lemma mk_interval_forward s e ab : dt_gt s e = false ->
@@ -226,3 +247,12 @@ Proof. unfold mk_interval. intros ->. reflexivity. Qed.
 
 Lemma range_down_mk s e ab : range_down (mk_interval s e ab) = negb ab && dt_gt s e.
 Proof. unfold mk_interval, range_down. destruct (dt_gt s e), ab; reflexivity. Qed.
+
+(* on a constructed interval: min(start, end) <= x <= max(start, end), whichever way round the ends were given and absolute or not *)
+Definition lo_end (s e : dtv) : dtv := if dt_gt s e then e else s.
+Definition hi_end (s e : dtv) : dtv := if dt_gt s e then s else e.
+Lemma contains_min_max_l s e ab x : py_contains (mk_interval s e ab) x = dt_le (lo_end s e) x && dt_le x (hi_end s e).
+Proof.
+  rewrite contains_spec_l, range_down_mk. unfold mk_interval, lo_end, hi_end.
+  destruct (dt_gt s e), ab; reflexivity.
+Qed.
